@@ -5,6 +5,7 @@ from django.template import Context, Template
 
 from django_components import Component, ComponentRegistry, NotRegistered, types
 from django_components.component_registry import all_registries
+from django_components.util.context import snapshot_context
 
 
 class DynamicComponent(Component):
@@ -112,6 +113,14 @@ class DynamicComponent(Component):
 
         comp_class = self._resolve_component(comp_name_or_class, registry)
 
+        # The inner component is rendered later (see `on_render_before()`), when the Context may have already
+        # left the `{% with %}` / `{% for %}` blocks that surround the `{% component %}` tag. So we remember
+        # the Context as it is now, same as if the inner component was rendered directly by the tag.
+        self._input_context_snapshot = snapshot_context(self.input.context)
+        self._outer_context_snapshot = (
+            snapshot_context(self.outer_context) if self.outer_context is not None else None
+        )
+
         return {
             "comp_class": comp_class,
             "args": args,
@@ -129,11 +138,11 @@ class DynamicComponent(Component):
 
         comp = comp_class(
             registered_name=self.registered_name,
-            outer_context=self.outer_context,
+            outer_context=self._outer_context_snapshot,
             registry=self.registry,
         )
         output = comp.render(
-            context=self.input.context,
+            context=self._input_context_snapshot,
             args=args,
             kwargs=kwargs,
             slots=self.input.slots,
